@@ -346,6 +346,14 @@ def emit(sc):
         lines.append("cons %d %d every=%d%s" % (c["id"], c["src"], c.get("every", 1), " run=%d" % c["run"] if "run" in c else ""))
     for r in sc.get("records", []):
         lines.append("record %s %d run=%d" % (r["key"], r["src"], r.get("run", 0)))
+    if sc.get("window2"):
+        lines.append("window2 %d %d" % tuple(sc["window2"]))
+    for r in sc.get("sreplays", []):
+        lines.append("sreplay %d shape=%s key=%s rid=%s run=%d" % (r["id"], r["shape"], r["key"], r["rid"], r["run"]))
+    for c in sc.get("scons", []):
+        lines.append("cons %d %d every=1 run=%d" % (c["id"], c["src"], c["run"]))
+    for r in sc.get("srecords", []):
+        lines.append("srecord %s %d rid=%s run=%d" % (r["key"], r["src"], r["rid"], r.get("run", 0)))
     return "\n".join(lines) + "\n"
 
 
